@@ -9,10 +9,11 @@ def main():
     props = [json.loads(l) for l in (VERIF / "properties.jsonl").read_text().splitlines() if l.strip()]
     na_reasons = json.loads((VERIF / "vt" / "not_applicable.json").read_text())
     checks, na, claimed = [], [], []
+    ready = set((VERIF / "vt" / "claimed.txt").read_text().split())
     for p in props:
         pid = p["id"]
         f = VERIF / "vt" / ("p_%s.py" % pid.lower())
-        if f.exists() and pid not in na_reasons:
+        if f.exists() and pid in ready and pid not in na_reasons:
             meta = importlib.import_module("vt.p_" + pid.lower()).META
             claimed.append(pid)
             checks.append({
